@@ -7,9 +7,12 @@ Tie: `persistent_entropy` of the real code vs the same model executed at Float (
 import math
 import numpy as np
 from .. import common
+from ..translator import py2lean
 from ..common import enc, ask, close, call
 
 LEVEL = "proof"
+TRUSTED = [py2lean.trusted_note("entropy")]
+PROP_FILES = ["PersimVerif/Props/C16.lean", py2lean.prop_file("entropy")]
 RULE = ("barcodes generated from one PRNG: 1-4 diagrams of 0-12 bars, coordinates from lattice/half/dyadic/"
         "decimal/uniform modes over scales 2^-20..2^20, infinite deaths with prob 0.25, all 8 flag combinations, "
         "a malformed stream with non-positive bars; non-trivial = at least one diagram with >=2 finite bars; "
@@ -52,7 +55,13 @@ def canon(res):
     return [float(x) for x in v]
 
 
+def pre_build(ctx):
+    """source translator (DESIGN.md 3.2): regenerate Generated/SrcEntropy.lean from PERSIM_ROOT's source"""
+    py2lean.pre_build(ctx, ("entropy",))
+
+
 def run(ctx):
+    py2lean.report_broken(ctx, PROP_FILES)
     r = ctx.rng
     cases, lines = [], []
     # corpus first
@@ -205,3 +214,4 @@ MANIFEST = {
             "Real.log/sum up to rounding. Theorems are exact-arithmetic; float rounding is covered only by the [T] law stream.",
     "technique": "Lean 4 theorems over a hand-written model + differential correspondence with the real code",
 }
+MANIFEST["note"] += " " + py2lean.manifest_note("entropy")
